@@ -223,6 +223,33 @@ var tamperings = []tampering{
 		ev.Set("event_id", ref.S("$forged"))
 		return true
 	}, redactableOnly: true},
+	// two at once: something that makes the hash fail, and members that are dropped on receipt (what the redacted
+	// form is made from is the event without them)
+	{name: "top-level-extra-key+event-id-added", apply: func(r *gen.Rand, t *ref.VersionTraits, ev *ref.Value) bool {
+		if t.EventFormat == 1 {
+			return false
+		}
+		ev.Set("injected_top_level", ref.A(ref.I(1), ref.S("x")))
+		ev.Set("event_id", ref.S("$forged"))
+		return true
+	}, redactableOnly: true},
+	{name: "top-level-extra-key+stripped-keys-added", apply: func(r *gen.Rand, t *ref.VersionTraits, ev *ref.Value) bool {
+		ev.Set("injected_top_level", ref.A(ref.I(1), ref.S("x")))
+		ev.Set("unsigned", ref.O("age", ref.I(99999), "redacted_because", ref.O("x", ref.I(1))))
+		ev.Set("age_ts", ref.I(1234))
+		ev.Set("outlier", ref.B(true))
+		ev.Set("destinations", ref.A(ref.S("x.example")))
+		return true
+	}, redactableOnly: true},
+	{name: "protected-depth-changed+event-id-added", apply: func(r *gen.Rand, t *ref.VersionTraits, ev *ref.Value) bool {
+		if t.EventFormat == 1 {
+			return false
+		}
+		d, _ := ev.Get("depth").Int()
+		ev.Set("depth", ref.I(d^3))
+		ev.Set("event_id", ref.S("$forged"))
+		return true
+	}, redactableOnly: false},
 }
 
 // accessorsVsJSON names the first field whose accessor disagrees with the event's own JSON (exact key names).
